@@ -2,6 +2,12 @@
 //! decryption is an oracle — the harness decides, per call, whether it fails or which plaintext it yields —
 //! and every call is logged with the ciphertext it was given so harnesses can assert *what* was decrypted.
 #![allow(static_mut_refs)]
+macro_rules! global { ($name:ident, $set:ident, $get:ident, $t:ty, $init:expr) => {
+    static mut $name: $t = $init;
+    /// setter/getter live in the defining crate: Kani mis-handles writes to another crate's `static mut`
+    pub fn $set(v: $t) { unsafe { $name = v; } }
+    pub fn $get() -> $t { unsafe { $name } }
+} }
 #[derive(Debug)]
 pub struct Error;
 impl std::fmt::Display for Error { fn fmt(&self, f: &mut std::fmt::Formatter<'_>) -> std::fmt::Result { f.write_str("rsa error") } }
@@ -16,16 +22,17 @@ pub struct RsaPublicKey { pub bits: usize }
 pub struct Pkcs1v15Encrypt;
 
 /// Oracle hook: (call index, ciphertext) -> plaintext or error. Set by the harness.
-pub static mut DECRYPT_HOOK: fn(u32, &[u8]) -> Result<Vec<u8>> = |_, _| Err(Error);
-pub static mut DECRYPT_CALLS: u32 = 0;
-pub static mut KEYGEN_CALLS: u32 = 0;
+fn default_decrypt(_n: u32, _c: &[u8]) -> Result<Vec<u8>> { Err(Error) }
+global!(DECRYPT_HOOK, set_decrypt_hook, decrypt_hook, fn(u32, &[u8]) -> Result<Vec<u8>>, default_decrypt);
+global!(DECRYPT_CALLS, set_decrypt_calls, decrypt_calls, u32, 0);
+global!(KEYGEN_CALLS, set_keygen_calls, keygen_calls, u32, 0);
 /// DER stand-in for the encoded public key (opaque to passage: it is only forwarded).
 pub const MODEL_DER: [u8; 4] = [0x30, 0x82, 0xca, 0xfe];
 
 impl RsaPrivateKey {
     pub fn new<R>(_rng: &mut R, bits: usize) -> Result<Self> { unsafe { KEYGEN_CALLS += 1; } Ok(RsaPrivateKey { bits }) }
     pub fn decrypt(&self, _p: Pkcs1v15Encrypt, ciphertext: &[u8]) -> Result<Vec<u8>> {
-        unsafe { let n = DECRYPT_CALLS; DECRYPT_CALLS += 1; DECRYPT_HOOK(n, ciphertext) }
+        unsafe { let n = DECRYPT_CALLS; DECRYPT_CALLS += 1; decrypt_hook()(n, ciphertext) }
     }
 }
 impl From<&RsaPrivateKey> for RsaPublicKey { fn from(k: &RsaPrivateKey) -> Self { RsaPublicKey { bits: k.bits } } }
